@@ -39,6 +39,9 @@ pub fn out_matches(exp: &Expect, out: &Out) -> bool {
         (Expect::Vals(a), Out::Vals(b)) => a == b,
         (Expect::Panic(a), Out::Panic(b)) => match (a, b) {
             (Pk::Injected(_), Pk::Injected(_)) => true,
+            // a repeated request into a cycle that already hit the iteration limit in this
+            // revision is answered with a propagated panic (C15 only demands "a panic")
+            (Pk::TooManyIterations, Pk::CancelPropagated) => true,
             _ => a == b,
         },
         _ => false,
@@ -67,14 +70,21 @@ pub struct RunOut {
     pub reexec: u64,
 }
 
-/// Run one history on a fresh database, checking every oracle after every operation.
+/// Run one history on a fresh database, checking every oracle after every operation. With
+/// `fresh_end`, the history is followed by a sweep that requests every node; the sweep's answers
+/// are additionally compared with those of a second, fresh database holding the same inputs.
 pub fn run_history(spec_flags: &Flags, prog: &Arc<Program>, hist: &[Op], stats: &mut Stats) -> RunOut {
     let mut sess = Sess::new(prog.clone());
     let mut world = World::new(prog);
     let mut mon = Monitor::new(spec_flags.clone(), prog.clone());
     let mut ro = RunOut { viol: None, reused: 0, reexec: 0 };
     sess.db.cx_arc().take_log();
-    for (i, op) in hist.iter().enumerate() {
+    let n_hist = hist.len();
+    let sweep: Vec<Op> = if spec_flags.fresh_end { (0..prog.nodes.len() as u8).map(Op::Q).collect() } else { Vec::new() };
+    let mut fresh_sweep: Option<Sess> = None;
+    let trace = std::env::var("MC_TRACE").is_ok();
+    for (i, op) in hist.iter().chain(sweep.iter()).enumerate() {
+        let is_sweep = i >= n_hist;
         let pre_world = if spec_flags.needs_pre_world { Some(world.clone()) } else { None };
         let exp = match world.apply_write(prog, op) {
             Some(e) => e,
@@ -82,19 +92,25 @@ pub fn run_history(spec_flags: &Flags, prog: &Arc<Program>, hist: &[Op], stats: 
         };
         let out = sess.apply(op);
         let log = sess.db.cx_arc().take_log();
+        if trace {
+            eprintln!("== step {i}{} {op:?} -> {out:?} (expected {exp:?})", if is_sweep { " (sweep)" } else { "" });
+            for r in &log {
+                eprintln!("     {r:?}");
+            }
+        }
         stats.checks += 1;
+        mon.pre_scan(i, op, &log, &sess);
         if spec_flags.values && !out_matches(&exp, &out) {
-            ro.viol = Some(("value".into(), format!("step {i} {op:?}: expected {exp:?}, observed {out:?}"), i));
+            let class = mon.classify(&out).unwrap_or("value");
+            ro.viol = Some((class.into(), format!("step {i} {op:?}: expected {exp:?}, observed {out:?}"), i));
             return ro;
         }
-        match &out {
-            Out::Panic(Pk::Other(m)) if !matches!(exp, Expect::Panic(_)) || spec_flags.values => {
-                if !matches!(exp, Expect::Panic(Pk::Other(_))) {
-                    ro.viol = Some(("unexpected-panic".into(), format!("step {i} {op:?}: panic {m:?}"), i));
-                    return ro;
-                }
+        if let Out::Panic(Pk::Other(m)) = &out {
+            if !matches!(exp, Expect::Panic(Pk::Other(_))) {
+                let class = mon.classify(&out).unwrap_or("unexpected-panic");
+                ro.viol = Some((class.into(), format!("step {i} {op:?}: panic {m:?}"), i));
+                return ro;
             }
-            _ => {}
         }
         match &out {
             Out::Panic(p) => stats.outcome(&format!("panic:{}", pk_name(p))),
@@ -106,11 +122,30 @@ pub fn run_history(spec_flags: &Flags, prog: &Arc<Program>, hist: &[Op], stats: 
             ro.viol = Some((oracle, format!("step {i} {op:?}: {msg}"), i));
             return ro;
         }
-        // fresh-database differential on every request (thorough) or at the end (quick)
-        let last = i + 1 == hist.len();
-        if (spec_flags.fresh_each && is_request(op)) || (spec_flags.fresh_end && last) {
-            if let Err(msg) = fresh_differential(prog, &world, &mut sess, op, &out, last, stats) {
-                ro.viol = Some(("fresh-db".into(), format!("step {i} {op:?}: {msg}"), i));
+        // fresh-database differential: on every request (thorough) and on the final sweep
+        if is_sweep || (spec_flags.fresh_each && is_request(op)) {
+            let f_out = if is_sweep {
+                if fresh_sweep.is_none() {
+                    let f = Sess::new(Arc::new(snapshot_program(prog, &world)));
+                    f.db.cx_arc().logging.store(false, std::sync::atomic::Ordering::SeqCst);
+                    fresh_sweep = Some(f);
+                    stats.bump("fresh_db_differentials", 1);
+                }
+                fresh_sweep.as_mut().unwrap().apply(op)
+            } else {
+                let mut f = Sess::new(Arc::new(snapshot_program(prog, &world)));
+                f.db.cx_arc().logging.store(false, std::sync::atomic::Ordering::SeqCst);
+                stats.bump("fresh_db_differentials", 1);
+                f.apply(op)
+            };
+            stats.checks += 1;
+            if !same_out(&f_out, &out) {
+                let class = mon.classify(&out).unwrap_or("fresh-db");
+                ro.viol = Some((
+                    class.into(),
+                    format!("step {i} {op:?}: incremental database answers {out:?}, a fresh database with the same inputs answers {f_out:?}"),
+                    i,
+                ));
                 return ro;
             }
         }
@@ -140,43 +175,6 @@ pub fn pk_name(p: &Pk) -> &'static str {
         Pk::SpecifyTwice => "specify-twice",
         Pk::Other(_) => "other",
     }
-}
-
-/// Build a second, fresh database with the same current inputs; the same request (and at the end
-/// of a history: every node) must give the same answer there.
-fn fresh_differential(
-    prog: &Arc<Program>,
-    world: &World,
-    sess: &mut Sess,
-    op: &Op,
-    out: &Out,
-    all_nodes: bool,
-    stats: &mut Stats,
-) -> Result<(), String> {
-    let snap = Arc::new(snapshot_program(prog, world));
-    let mut fresh = Sess::new(snap.clone());
-    fresh.db.cx_arc().logging.store(false, std::sync::atomic::Ordering::SeqCst);
-    if is_request(op) {
-        let f = fresh.apply(op);
-        stats.checks += 1;
-        if !same_out(&f, out) {
-            return Err(format!("fresh database answers {f:?}, incremental database answered {out:?}"));
-        }
-    }
-    if all_nodes {
-        for n in 0..prog.nodes.len() as u8 {
-            let q = Op::Q(n);
-            let a = sess.apply(&q);
-            let b = fresh.apply(&q);
-            sess.db.cx_arc().take_log();
-            stats.checks += 1;
-            if !same_out(&a, &b) {
-                return Err(format!("final sweep: node {n}: incremental {a:?} vs fresh {b:?}"));
-            }
-        }
-    }
-    stats.bump("fresh_db_differentials", 1);
-    Ok(())
 }
 
 fn same_out(a: &Out, b: &Out) -> bool {
@@ -229,7 +227,8 @@ pub fn run_worker(spec: &Spec, w: usize, nw: usize) -> WorkerOut {
                     out.stats.samples.push(json!({"program": prog.name, "history": format!("{hist:?}")}));
                 }
                 if let Some((oracle, msg, step)) = r.viol {
-                    let sig = format!("{}:{}:{}", spec.id, oracle, prog.name);
+                    let classified = oracle.starts_with("cycle-") || oracle.starts_with("stale-cycle") || oracle.starts_with("fallback-participant");
+                    let sig = if classified { format!("{}:{}", spec.id, oracle) } else { format!("{}:{}:{}", spec.id, oracle, prog.name) };
                     if viol_sigs.insert(sig.clone()) {
                         out.viols.push(Viol {
                             property: spec.id.to_string(),
